@@ -74,8 +74,8 @@ func c10Enumerate(tier string, seed int64, emit func(string, any)) {
 	one("tag x scalar", `"x"`)
 	one("tag x scalar", ``)
 	// computed
-	exprs := []string{`"1+1"`, `""`, `"1 +"`, `"x"`, `"this.a"`, `"cv"`, `5`, `null`, `"2d1"`, `"func q(){1}"`, `"` + strings.Repeat("(", 30) + `"`}
-	attrs := []string{"", "null", "{}", `"str"`, "[]", "5"}
+	exprs := []string{`"1+1"`, `""`, `"1 +"`, `"x"`, `"this.a"`, `"cv"`, `"v"`, `"v + 1"`, `"this.a + v"`, `"[v, 1]"`, `5`, `null`, `"2d1"`, `"func q(){1}"`, `"` + strings.Repeat("(", 30) + `"`}
+	attrs := []string{"", "null", "{}", `"str"`, "[]", "5", `{"a":null}`, `{"a":null,"b":{"t":0,"v":1}}`, `{"a":5}`, `{"a":{"t":5,"v":{"expr":"this.a"}}}`}
 	for _, d := range c10SubDocs {
 		attrs = append(attrs, `{"a":`+d+`}`)
 	}
